@@ -386,6 +386,8 @@ impl<L: Language, N: Analysis<L>> EGraph<L, N> {
             .collect();
 
         for l in cartesian(&groups) {
+            #[cfg(slotted_egraphs_verif)]
+            crate::verif::work();
             let pn = enode.clone();
             let pn = self.chain_pn_map(&pn, |i, pai| self.chain_pai_pp(&pai, l[i]));
             // TODO fix check.
